@@ -49,13 +49,59 @@ def run(tier):
                                                     (n, "kept the truncated %d-byte file although the complete output has %d bytes" % (len(final), len(full)) if final is not None else "left no output"),
                                             "grammar": name, "report": report, "crash_offset": n, "header_bytes": hdr_len,
                                             "replay": "cd <dir with a.lalrpop>; (ulimit -f is in 512-byte blocks: use python resource.setrlimit(RLIMIT_FSIZE, %d)); lalrpop -f a.lalrpop; lalrpop a.lalrpop" % n})
+    # second injector: cumulative crash points over the whole run (every file below the directory,
+    # write/copy_file_range/sendfile bytes and create/unlink/rename operations), so that a crash while
+    # the finished temporary file is being installed is reached too
+    shim = vlib.build_shim()
+    nshim = 0
+    for name in ["g0", "g2"]:
+        full = ref[name]
+        d = fsrun.fresh_dir("crash")
+        open(os.path.join(d, "a.lalrpop"), "w").write(fsrun.text_of(name))
+        base_env = {"LD_PRELOAD": shim, "CRASH_DIR": d}
+        logf = os.path.join(vlib.CACHE, "fs", "shim.log")
+        if os.path.exists(logf):
+            os.remove(logf)
+        code, out = fsrun.run_lalrpop(lal, ["-f", "a.lalrpop"], d, env=dict(base_env, CRASH_LOG=logf))
+        try:
+            tot_bytes, tot_ops = [int(x) for x in open(logf).read().split()[:2]]
+        except Exception:
+            raise vlib.BuildBroken("crash shim dry run gave no totals (exit %s): %s" % (code, out[-500:]))
+        if tot_bytes < len(full) or tot_ops < 1:
+            raise vlib.BuildBroken("crash shim does not see the output being written (%d bytes, %d ops)" % (tot_bytes, tot_ops))
+        step = 9 if tier == "thorough" else max(1, tot_bytes // 50)
+        hdr_len = len(b"\n".join(full.split(b"\n", 2)[:2])) + 1
+        pts = set(range(0, tot_bytes, step)) | {tot_bytes - 1}
+        for base in range(0, tot_bytes, len(full)):
+            pts |= {base + k for k in (0, 1, hdr_len - 1, hdr_len, hdr_len + 1, len(full) - 1) if base + k < tot_bytes}
+        plan = [("CRASH_AT_BYTES", k) for k in sorted(pts)] + [("CRASH_AT_OP", k) for k in range(1, tot_ops + 1)]
+        for var, k in plan:
+            d = fsrun.fresh_dir("crash")
+            open(os.path.join(d, "a.lalrpop"), "w").write(fsrun.text_of(name))
+            if var == "CRASH_AT_OP" and k % 2 == 0:
+                open(os.path.join(d, "a.rs"), "wb").write(b"// stale\n")     # an older output is present
+            code, out = fsrun.run_lalrpop(lal, ["-f", "a.lalrpop"], d, env={"LD_PRELOAD": shim, "CRASH_DIR": d, var: str(k)})
+            was_killed = code < 0 or code == 137
+            killed += 1 if was_killed else 0
+            left = {f: os.path.getsize(os.path.join(d, f)) for f in sorted(os.listdir(d)) if f != "a.lalrpop"}
+            code2, out2 = fsrun.run_lalrpop(lal, ["a.lalrpop"], d)
+            final = open(os.path.join(d, "a.rs"), "rb").read() if os.path.exists(os.path.join(d, "a.rs")) else None
+            cases.append((name, var, k)); nshim += 1
+            if final != full:
+                nviol += 1
+                key = "truncated-output-kept" if (final is not None and full.startswith(final)) else "wrong-output-after-crash"
+                if nviol <= 3:
+                    rep.violation(key, {"what": "a forced build was killed (%s=%d, cumulative over all files it writes); files left: %r; the following normal build %s" %
+                                                (var, k, left, "kept a %d-byte a.rs although the complete output has %d bytes" % (len(final), len(full)) if final is not None else "left no output"),
+                                        "grammar": name, "crash_point": [var, k], "files_left": left, "grammar_text": fsrun.text_of(name),
+                                        "replay": "LD_PRELOAD=/verif/.cache/crashshim.so CRASH_DIR=$PWD %s=%d lalrpop -f a.lalrpop; lalrpop a.lalrpop; compare a.rs with a clean build" % (var, k)})
     cov = {"obligations": nobl + len(cases), "discharged": ndis + len(cases) - nviol,
            "checker_cmd": "make -C coq; coqc Props/C22.v; python crash enumeration with RLIMIT_FSIZE on the real binary",
-           "trusted_base": vlib.TRUSTED_COMMON + ["OS semantics of RLIMIT_FSIZE/SIGXFSZ: the file holds exactly the bytes written before the limit", "rename(2) atomicity within a directory"],
+           "trusted_base": vlib.TRUSTED_COMMON + ["OS semantics of RLIMIT_FSIZE/SIGXFSZ: the file holds exactly the bytes written before the limit", "rename(2) atomicity within a directory", "harness/shim/crashshim.c (LD_PRELOAD hooks of write/copy_file_range/sendfile/open/unlink/rename)"],
            "theorems": names, "evaluations": len(cases), "distinct_nontrivial": len(set(cases)),
            "rule": "forced build killed by SIGXFSZ at byte offset n of the output (every n in thorough; ~45 offsets incl. both header line boundaries in quick; with and without --report), "
                    "followed by a normal build; non-trivial = distinct (grammar, report, offset)",
-           "distribution": {"crash_points": len(cases), "process_killed": killed, "violations": nviol},
+           "distribution": {"crash_points": len(cases), "cumulative_shim_points": nshim, "process_killed": killed, "violations": nviol},
            "samples": samples or [{"note": "no crash point killed the process"}]}
     vlib.write_evidence(PROP, tier, "proof", cov, time.time() - t0, violations=len(rep.viol),
                         assumptions=["crashes between system calls other than during writes (e.g. between remove and create) are covered by the model only"])
